@@ -35,16 +35,27 @@ func (r *RtRefreshManager) pingAndEvictPeers(ctx context.Context)
 func (r *RtRefreshManager) doRefresh(ctx context.Context, forceRefresh bool) error
   modifies *
 
+# requests put on the trigger channel are never nil
+func (r *RtRefreshManager) RefreshNoWait()
+  props C12
+  chan_inv r.triggerRefresh : $msg != nil
+  modifies *
+
+funclit 0 in (r *RtRefreshManager) Refresh(force bool) <-chan error
+  props C12
+  chan_inv r.triggerRefresh : $msg != nil
+
 func (r *RtRefreshManager) loop()
   props C12 C14
   ghostvar $col int = 0
   ghostvar $ans int = 0
   modifies *
+  chan_inv r.triggerRefresh : $msg != nil
   ensures [internal-every-accepted-request-is-answered] $col == $ans
   ensures [accounted] tagged("wgdone:r.refcount")
   loop 0 invariant $col == $ans
-  loop 1 invariant $col - $ans == len(waiting)
-  loop over waiting invariant $col - $ans == len(waiting) - $key
+  loop 1 invariant $col - $ans == len(waiting) && all(i, 0, len(waiting), waiting[i] != nil)
+  loop over waiting invariant $col - $ans == len(waiting) - $key && all(i, 0, len(waiting), waiting[i] != nil)
   ghost at append(waiting): $col = $col + 1
   ghost at send(w): $ans = $ans + 1
 @*/
